@@ -105,7 +105,7 @@ CHECKS.update({
         text="lin_sticky (no estimate ever decreases under any sequence of adds and merges on either side; 2^32-1 is absorbing), counter_stop/log_add_sticky/log_merge_sticky for log counters, "
              "hh_alone (a key alone in its cells holds exactly min(true, 2^32-1)) for every history tree. The clause about _find_base (a float Newton iteration) is checked against its "
              "specification |dec(max counter) - max_count| ≤ 1e-6·max_count or ValueError on a configuration grid — a test, labelled as such."
-             + SRC + "",
+             + SRC + E2ELOG + " C18_log_add_mono_src / C18_log_merge_mono_src: for the generated log code no add and no merge lowers any estimate.",
         tech="Lean 4 proof (monotonicity/stickiness over operation sequences; exact cell content when alone) + correspondence near ceilings + find_base grid test",
         note=TB + " _find_base numerics are NOT proved (checked against a spec on a grid).",
         ref="§4 C18"),
